@@ -100,7 +100,7 @@ def check_ensure_running(n: int, mw: int, started: bool) -> bool:
     return log.count("start-manager", True, max(n, mw)) == 1
 
 
-def check_pid_message(n: int, mw: int, victim: int, n_pending: int, n_running: int, exec_alive: bool) -> bool:
+def check_pid_message(n: int, mw: int, victim: int, n_pending: int, n_running: int, exec_alive: bool, slow: bool = False) -> bool:
     """
     pre: 1 <= n <= 3 and 1 <= mw <= 3 and 0 <= victim <= 3
     pre: 0 <= n_running <= n_pending <= 3
@@ -114,6 +114,8 @@ def check_pid_message(n: int, mw: int, victim: int, n_pending: int, n_running: i
     procs = ex._processes
     pid = 10 + victim  # may be a pid that is not (or no longer) registered
     p = procs.get(pid)
+    if p is not None:
+        p.slow = bool(slow)  # the leaving worker may take arbitrarily long to terminate (atexit handlers, nested pools)
     fake = NS(processes=procs, processes_management_lock=lock,
               pending_work_items={i: None for i in range(n_pending)},
               running_work_items=list(range(n_running)),
@@ -131,6 +133,8 @@ def check_pid_message(n: int, mw: int, victim: int, n_pending: int, n_running: i
         # announced exit: removed, released exactly once, joined
         if pid in procs or p._worker_exit_lock.held or p.joined != 1 or log.count("release", f"exit{pid}") != 1:
             return False
+        if p.alive:
+            return False  # the manager waited for the worker to be gone (nothing is left to be mistaken for a crash)
     left = n - (1 if p is not None else 0)
     need = (n_pending - n_running > 0) or (n_running > left)
     if need and exec_alive and left < mw:
